@@ -50,8 +50,12 @@ func (dv *defaultVerifierSimple) verifyRoot(root *Node) ([]string, []string, err
 
 	dirsFilesystem := map[string]struct{}{}
 	extraDirs := []string{}
-	if err := fs.WalkDir(
-		os.DirFS(filepath.Join(dv.targetDir, root.path())),
+	rootPath := filepath.Join(dv.targetDir, root.path())
+	if fi, err := os.Stat(rootPath); err == nil && !fi.IsDir() {
+		// rootがファイルの場合 (拡張子指定のMkdirで作られたもの等)、存在するのはroot自身のみ
+		dirsFilesystem[rootPath] = struct{}{}
+	} else if err := fs.WalkDir(
+		os.DirFS(rootPath),
 		".",
 		func(path string, d fs.DirEntry, err error) error {
 			dir := filepath.Join(dv.targetDir, root.path(), path)
